@@ -218,6 +218,7 @@ func (s *crSpec) gen() []*crBatch {
 			b.Chunks = 1 + r.Intn(3)
 		}
 		if s.BigManifest && b.Kind == "write" {
+			b.Sync = true // every frozen journal then holds acknowledged batches
 			n = 1 + r.Intn(4)
 			vsz = func() int { return r.Intn(20) }
 		}
